@@ -18,11 +18,14 @@ def impl_parse_lr(s):
         return 'err syntax ; lex'
     except Exception as exc:
         return 'err ' + type(exc).__name__ + ' ; lex'
+    # the dump numbers the productions canonically: 0 = the augmented one, the others sorted by (lhs, rhs)
+    porder = [0] + sorted(range(1, len(prods)), key=lambda i: (prods[i].name, tuple(prods[i].prod)))
+    canon = {prods[old].number: k for k, old in enumerate(porder)}
     trace = []
     saved = [(p, p.func) for p in prods]
     def wrap(p, fn):
         def wrapped(*a, **kw):
-            trace.append(p.number)
+            trace.append(canon.get(p.number, -1))
             return fn(*a, **kw)
         return wrapped
     try:
